@@ -561,7 +561,7 @@ static char * correct_dimension_units(char * original) {
 		result[i] = tolower(result[i]);
 	}
 
-	if (strstr(&result[strlen(result) - 2], "px")) {
+	if (strlen(result) >= 2 && strstr(&result[strlen(result) - 2], "px")) {
 		result[strlen(result) - 2] = '\0';
 		strcat(result, "pt");
 	}
